@@ -56,7 +56,7 @@ def lit(var, pol=True):
 
 # ---------------------------------------------------------------- atoms
 class Atom(object):
-    __slots__ = ('id', 'kind', 'payload', 'deps', 'M', 'S', 'key')
+    __slots__ = ('id', 'kind', 'payload', 'deps', 'M', 'S', 'key', '_pl')
 
     def __repr__(self):
         return '@%d:%s' % (self.id, self.kind)
@@ -74,6 +74,7 @@ def atom(kind, key, payload=None, deps=frozenset(), M=frozenset(), S=frozenset()
         a = Atom()
         a.id = len(ATOMS)
         a.kind, a.key, a.payload, a.deps, a.M, a.S = kind, key, payload, frozenset(deps), frozenset(M), frozenset(S)
+        a._pl = None
         ATOMS.append(a)
         _ATOM_BY_KEY[k] = a
     return a
@@ -355,9 +356,47 @@ def band(a, b):
                         r = band(x, bnot(rest))
                         break
     if r is None:
+        # a set bit of X implies "X != 0": an operand that is (or implies) a bit of X fixes the 'nz' atom of X in the other operand
+        for x, y in ((a, b), (b, a)):
+            if y.kind == 's' and x.kind != 'c':
+                for v in y.sup:
+                    if v[0] == '@' and ATOMS[v[1]].kind == 'nz' and _implies_payload_bit(x, ATOMS[v[1]]):
+                        r = band(x, restrict(y, v, 1))
+                        break
+                if r is not None:
+                    break
+    if r is None:
         r = _band(a, b)
     _MEMO[key] = r
     return r
+
+
+def _implies_payload_bit(x, at):
+    pl = at._pl
+    if pl is None:
+        live = [b for b in at.payload.bits if b.kind != 'c']
+        byvar = {}
+        for b in live:
+            if b.kind == 's':
+                for v in b.sup:
+                    byvar.setdefault(v, []).append(b)
+        pl = at._pl = (frozenset(id(b) for b in live), frozenset((('#', b.n), True) for b in live), byvar)
+    if id(x) in pl[0]:
+        return True
+    if x.kind == 'd':
+        return bool(x.M & pl[1])
+    if x.kind == 's':
+        # x => one of the payload bits, decided on the truth table of x
+        seen = set()
+        xs = set(x.sup)
+        for v in x.sup:
+            for pb in pl[2].get(v, ()):
+                if id(pb) in seen or not set(pb.sup) <= xs:
+                    continue
+                seen.add(id(pb))
+                if _small(xs, lambda asg: _ev(x, asg) & (1 - _ev(pb, asg))) is C0:
+                    return True
+    return False
 
 
 def selflit(a):
